@@ -227,6 +227,27 @@ func checkC05(r *core.Run) {
 		c05Ctx(r, fn, ph.action)
 	}
 	c05Fields(r)
+	// a user method that panics part-way must not be taken for one that succeeded: whoever on the way from the TCC
+	// manager to the reflective call recovers from the panic has to hand it on as an error
+	{
+		var fns []*core.FuncInfo
+		for _, m := range []string{"BranchCommit", "BranchRollback"} {
+			fns = append(fns, methodInfo(w, mgr, m))
+		}
+		if tpa := w.NamedType("pkg/rm", "TwoPhaseAction"); tpa != nil {
+			for _, m := range []string{"Prepare", "Commit", "Rollback"} {
+				fns = append(fns, methodInfo(w, tpa, m))
+			}
+		}
+		var keep []*core.FuncInfo
+		for _, f := range fns {
+			if f != nil {
+				keep = append(keep, f)
+			}
+		}
+		keep = append(keep, reachFrom(w, keep, pRM, pTCC)...)
+		recoverSurfaces(r, "C05.status", keep)
+	}
 	r.Floor("C05.before", 4)
 	r.Floor("C05.param", 4)
 	r.Floor("C05.wiring", 8)
